@@ -121,6 +121,32 @@ fn finish(panicked: bool) -> Explored {
     }
 }
 
+/// Folds the numbers of the OS-thread stress run (written by `vcheck <ID>S`,
+/// see harness/vchecks/src/checks/stress.rs) into the property's evidence.
+pub fn fold_stress(id: &str, report: &mut crate::fw::Report) {
+    let path = format!("/verif/.work/stress-{id}.json");
+    let Ok(text) = std::fs::read_to_string(&path) else {
+        report.assumptions.push("no OS-thread stress numbers were available for this run".to_string());
+        return;
+    };
+    let Ok(v) = serde_json::from_str::<serde_json::Value>(&text) else { return };
+    report.stats.evals(v["evaluations"].as_u64().unwrap_or(0));
+    if let Some(classes) = v["classes"].as_object() {
+        for (k, n) in classes {
+            report.stats.class_n(&format!("os-thread-stress: {k}"), n.as_u64().unwrap_or(0));
+        }
+    }
+    if let Some(d) = v["discarded"].as_object() {
+        for (k, n) in d {
+            for _ in 0..n.as_u64().unwrap_or(0).min(1000) {
+                report.stats.discard(&format!("os-thread-stress: {k}"));
+            }
+        }
+    }
+    report.stats.extra.insert("os_thread_stress".to_string(), v);
+    let _ = std::fs::remove_file(&path);
+}
+
 /// Splits "ORACLE[sig]: detail" (the format the harness closures panic with).
 pub fn oracle_parts(message: &str) -> Option<(String, String)> {
     let rest = message.strip_prefix("ORACLE[")?;
